@@ -392,11 +392,11 @@ pub fn run_matrix(seed: u64) -> (Vec<Value>, usize) {
 }
 
 /// (b) racing first-opens: 2..8 real threads, same key id, same or different paths, seeded mixes
-pub fn run_races(seed: u64, n: usize, max_threads: usize) -> Vec<Value> {
+pub fn run_races(seed: u64, n: usize, min_threads: usize, max_threads: usize) -> Vec<Value> {
     let mut rng = StdRng::seed_from_u64(seed ^ 0x5eed);
     let mut out = vec![];
     for i in 0..n {
-        let nt = 2 + (i % (max_threads - 1));
+        let nt = min_threads + (i % (max_threads - min_threads + 1));
         let mut h = Hist::new(&mut rng, 1000 + i, 2);
         let shape = rng.gen_range(0..6);
         // initial state
